@@ -299,15 +299,20 @@ Definition track (hb : N) (g : ghost) (o : op) (ob : obs) : ghost :=
     then mkGhost (g_live g) ((a, v mod 256) :: g_shadow g) (a :: g_written g) (g_dead g) (g_void g) pg
     else g
   | ORead _ => g
-  | OGrow _ => mkGhost (g_live g) (g_shadow g) (g_written g) (g_dead g) (g_void g) pg
-  | OSetPages _ =>   (* environment assumption: memory never shrinks *)
-    mkGhost (g_live g) (g_shadow g) (g_written g) (g_dead g) (g_void g || (pg <? g_pages g)) pg
+  | OGrow _ =>       (* environment assumption: the guest / embedder never makes the memory larger than 4 GiB *)
+    mkGhost (g_live g) (g_shadow g) (g_written g) (g_dead g) (g_void g || (max_wasm_pages <? pg)) pg
+  | OSetPages _ =>   (* environment assumption: memory never shrinks (nor exceeds 4 GiB) *)
+    mkGhost (g_live g) (g_shadow g) (g_written g) (g_dead g)
+            (g_void g || (pg <? g_pages g) || (max_wasm_pages <? pg)) pg
   end.
 
 (* the property, one observation at a time.  [hb] is the aligned heap base. *)
 Definition step_ok (hb : N) (g : ghost) (o : op) (ob : obs) : bool :=
   g_void g ||
-  ((o_pages ob <=? max_wasm_pages) &&                             (* never past 4 GiB *)
+  ((match o with
+    | OGrow _ | OSetPages _ => true      (* the size the guest / embedder gives the memory is theirs *)
+    | _ => o_pages ob <=? max_wasm_pages                          (* never past 4 GiB *)
+    end) &&
   match o with
   | OAlloc size =>
     match o_res ob with
@@ -390,3 +395,69 @@ Definition run (v : variant) (c : cfg) (init : N -> N) (ops : list op) : list (o
   run_from v (init_st (c_hb c), init_mem c init, ghost0 (c_pages c)) ops.
 
 Definition zero_mem : N -> N := fun _ => 0.
+
+(* ================= the unconditional part of the property =================
+   What holds of every run whatever the guest and the embedder do — no guest discipline, no
+   zero-initialised heap, no bound on the memory's own maximum, forged headers and shrunk
+   memories included (the parts of [check] that survive [g_void]):
+     - Allocate answers with a pointer or an error, Deallocate with ok or an error;
+     - once an allocator call has failed, every later call fails (poisoning);
+     - requests above 32 MiB fail;
+     - Deallocate never changes the memory size, Allocate never shrinks it and never grows it
+       past 65536 pages (4 GiB) — even when the memory object itself would allow more. *)
+Definition is_call (o : op) : bool := match o with OAlloc _ | OFree _ => true | _ => false end.
+
+(* [dead]: an allocator call has failed earlier; [pg]: the memory size in pages before the call *)
+Definition uncond_ok (dead : bool) (pg : N) (o : op) (ob : obs) : bool :=
+  match o with
+  | OAlloc size =>
+    match o_res ob with
+    | RErr _ => true
+    | RPtr _ => negb dead && (size <=? max_alloc)
+    | _ => false
+    end && (pg <=? o_pages ob) && ((max_wasm_pages <? pg) || (o_pages ob <=? max_wasm_pages))
+  | OFree _ =>
+    match o_res ob with
+    | RErr _ => true
+    | ROk => negb dead
+    | _ => false
+    end && (o_pages ob =? pg)
+  | _ => true
+  end.
+
+Fixpoint uncond_from (dead : bool) (pg : N) (tr : list (op * obs)) : bool :=
+  match tr with
+  | [] => true
+  | (o, ob) :: r =>
+    uncond_ok dead pg o ob && uncond_from (dead || (is_call o && is_err (o_res ob))) (o_pages ob) r
+  end.
+
+Definition check_uncond (c : cfg) (tr : list (op * obs)) : bool := uncond_from false (c_pages c) tr.
+
+(* ================= boolean equality of observations (driver, vm_compute cross-check) ========= *)
+Definition err_code (e : err) : N :=
+  match e with
+  | EPoisoned => 0 | EShrunk => 1 | ETooLarge => 2 | EHdrPtr => 3 | EReadHdr => 4 | EInvalidOrder => 5
+  | EOccInFree => 6 | EOOS => 7 | EGrow => 8 | EWriteHdr => 9 | EInvalidPtr => 10 | EEmptyHdr => 11
+  | EUnderflow => 12 | EPanic => 13
+  end.
+Definition res_eqb (a b : res) : bool :=
+  match a, b with
+  | RPtr p, RPtr q => p =? q
+  | RErr e, RErr f => err_code e =? err_code f
+  | ROk, ROk => true
+  | RVal v, RVal w => v =? w
+  | RSkip, RSkip => true
+  | _, _ => false
+  end.
+Definition obs_eqb (a b : obs) : bool := res_eqb (o_res a) (o_res b) && (o_pages a =? o_pages b).
+Fixpoint obs_list_eqb (a b : list obs) : bool :=
+  match a, b with
+  | [], [] => true
+  | x :: a', y :: b' => obs_eqb x y && obs_list_eqb a' b'
+  | _, _ => false
+  end.
+
+(* one traced case re-evaluated inside Coq: the model's observations equal the implementation's *)
+Definition vm_case (c : cfg) (ops : list op) (impl : list obs) : bool :=
+  obs_list_eqb (map snd (run fixed c zero_mem ops)) impl.
